@@ -8,10 +8,20 @@ import Mathlib.Algebra.Order.Field.Rat
 import Mathlib.Data.List.Forall2
 import Mathlib.Tactic.Ring
 /-!
-# Lemmas for C12: order statistics are monotone
+# Lemmas for C12 (inclusion isotonicity)
 
-`sorted_get_le_iff` (rank characterisation of a sorted list) and `sort_mono` (pointwise-smaller list
-has pointwise-smaller sort) are the kernel-checked proofs of DESIGN.md Appendix A.2.
+* `sorted_get_le_iff`, `sort_mono` — rank characterisation of a sorted list; pointwise-smaller list has
+  pointwise-smaller sort (the kernel-checked proofs of DESIGN.md Appendix A.2); `sortR_mono` for `Pun.sortR`;
+* `LE` (pointwise `≤` of lists) and its closure under `map`, `zipWith`, `reverse`, `take`, `drop`, `append`,
+  `maxL`, `minL`;
+* `PSub` (`P ⊑ Q`), `PairSub`; the combination rules of `operation.py` are isotone:
+  `iso_frechetOp` (any operation monotone in both arguments, no well-formedness needed),
+  `iso_perfectOp`, `iso_oppositeOp`, `iso_independentOp`, `iso_naiveOp` (any operation with the corner-hull
+  property `Hull`: `+`, `−`, `×`);
+* `WF`; the constructor on well-formed bounds: `mk_ok`, `mk_ok_switched`, `mk_ok_condense`; `condense_mono`;
+  `frechet_valid` (Frechet left bound ≤ right bound); `add_iso` (public `add` under every dependency);
+* `levelValue_mono`, `stackBound_mono` — the generalised inverse of the cumulated mass (`stacking`) is monotone
+  in the values (`geninv_antitone` of the design).
 -/
 set_option linter.unusedSimpArgs false
 set_option linter.unusedVariables false
